@@ -109,6 +109,25 @@ func (s *C06Srv) hook(c *server.Peer, cmd string, args ...string) bool {
 		e.Keys = []string{args[0]}
 		e.Secs, _ = strconv.Atoi(args[1])
 		e.Val = args[2]
+	case "SET":
+		// go-redis sends SET key value EX secs (PX ms for sub-second expiries);
+		// logged as SETEX with the TTL rounded up to seconds, Secs = 0: no expiry
+		if len(args) < 2 {
+			return false
+		}
+		e.Cmd = "SETEX"
+		cmd = "SETEX"
+		e.Keys = []string{args[0]}
+		e.Val = args[1]
+		for i := 2; i+1 < len(args); i += 2 {
+			n, _ := strconv.Atoi(args[i+1])
+			switch strings.ToUpper(args[i]) {
+			case "EX":
+				e.Secs = n
+			case "PX":
+				e.Secs = (n + 999) / 1000
+			}
+		}
 	case "DEL":
 		e.Keys = append([]string(nil), args...)
 	default:
@@ -315,7 +334,7 @@ func c06CleanInterp(t *testing.T, c c06CleanCase) (v kit.Verdict) {
 			}
 			g := strings.Join(gs, " ")
 			want, inv := c06Expect(task, false), c06Expect(task, true)
-			allFail := len(want) == len(C06Delays) && !task.Script[len(C06Delays)-1]
+			allFail := len(want) == len(C06Delays) && !(len(task.Script) >= len(C06Delays) && task.Script[len(C06Delays)-1])
 			if allFail {
 				classes["all-fail"] = true
 				// the statement does not say what happens when every attempt of
@@ -344,7 +363,7 @@ func c06CleanInterp(t *testing.T, c c06CleanCase) (v kit.Verdict) {
 	}
 	for _, task := range c.Tasks {
 		e := c06Expect(task, false)
-		if len(e) > 1 && task.Script[len(e)-1] {
+		if len(e) > 1 && len(task.Script) >= len(e) && task.Script[len(e)-1] {
 			v.NonTrivial = true // a delete fault followed by recovery
 		}
 	}
@@ -384,6 +403,6 @@ func c06CleanGen(rt *rapid.T) c06CleanCase {
 }
 
 func TestVerif_C06_cleaner(t *testing.T) {
-	kit.Run(t, "C06", "cleaner-schedule", kit.Opts{Quick: 300, Thorough: 8000}, c06CleanGen,
+	kit.Run(t, "C06", "cleaner-schedule", kit.Opts{Quick: 600, Thorough: 16000}, c06CleanGen,
 		func(c c06CleanCase) kit.Verdict { return c06CleanInterp(t, c) })
 }
